@@ -53,6 +53,26 @@ def kernel_pred(c):
         w = np.asarray(SplineInterpolator1D(basis).get_quadrature_coefficients(), dtype=float)
     ref = bspl.Ref(space, basis)
     v = np.asarray(basis.greville, dtype=float)
+    # the weights and the equilibrium table as the DensityFinder itself holds them for this (possibly graded, possibly
+    # asymmetric) velocity space -- what getRho / getPerturbedRho hand to the kernels
+    from pygyro.poisson.poisson_solver import DensityFinder
+    from pygyro.initialisation.constants import Constants
+    radii = np.array([0.5, 3.0, 7.3, 12.0])
+    consts = Constants()
+    with crash_is_violation("C16:build", "building the DensityFinder"):
+        df = DensityFinder(6, basis, [radii, None, None, v], consts)
+    wd = getattr(df, "_quad_coeffs", None)
+    if wd is not None:
+        wd = np.asarray(wd, dtype=float)
+        if wd.shape != w.shape or np.abs(wd - w).max() > 64 * EPS * float(np.abs(w).max()):
+            raise Violation("C16:kernel:finder-weights", "DensityFinder holds quadrature weights differing from those of the "
+                            "interpolator of its own velocity space by %.3e" % (np.abs(wd - w).max() if wd.shape == w.shape else np.inf))
+    tab = getattr(df, "_fEq", None)
+    if tab is not None:
+        want_tab = advect.f_eq(radii[:, None], v[None, :], advect.const_dict(consts))
+        if np.shape(tab) != want_tab.shape or not (np.abs(tab - want_tab) <= 1e-13 * np.abs(want_tab) + 1e-300).all():
+            raise Violation("C16:kernel:finder-equilibrium", "DensityFinder's equilibrium table differs from f_eq(r, v) on its own "
+                            "(r, v) grid")
     A = bspl.collocation(ref, v)
     cond = np.linalg.cond(A)
     if cond > 1e10:
